@@ -127,7 +127,8 @@ impl Hk {
     pub fn jwk_str(self, which: usize) -> Option<&'static str> {
         match (self, which) {
             (Hk::None, _) => None,
-            (Hk::EsLz, _) => Some(EC_HOLDER_LZ_JWK),
+            (Hk::EsLz, 0) => Some(EC_HOLDER_LZ_JWK),
+            (Hk::EsLz, _) => Some(EC_HOLDER2_JWK),
             (Hk::Es, 0) => Some(EC_HOLDER_JWK),
             (Hk::Es, _) => Some(EC_HOLDER2_JWK),
             (Hk::Ed, 0) => Some(ED_HOLDER_JWK),
@@ -144,7 +145,8 @@ impl Hk {
     pub fn enc(self, which: usize) -> Option<EncodingKey> {
         match (self, which) {
             (Hk::None, _) => None,
-            (Hk::EsLz, _) => Some(EncodingKey::from_ec_pem(EC_HOLDER_LZ_PRIV.as_bytes()).unwrap()),
+            (Hk::EsLz, 0) => Some(EncodingKey::from_ec_pem(EC_HOLDER_LZ_PRIV.as_bytes()).unwrap()),
+            (Hk::EsLz, _) => Some(EncodingKey::from_ec_pem(EC_HOLDER2_PRIV.as_bytes()).unwrap()),
             (Hk::Es, 0) => Some(EncodingKey::from_ec_pem(EC_HOLDER_PRIV.as_bytes()).unwrap()),
             (Hk::Es, _) => Some(EncodingKey::from_ec_pem(EC_HOLDER2_PRIV.as_bytes()).unwrap()),
             (Hk::Ed, 0) => Some(EncodingKey::from_ed_pem(ED_HOLDER_PRIV.as_bytes()).unwrap()),
